@@ -23,7 +23,7 @@ CLASSES = ['AddEnclosingMiddleware', 'LatexDecodingMiddleware', 'LatexEncodingMi
            'MonthAbbreviationMiddleware', 'MonthIntMiddleware', 'MonthLongStringMiddleware', 'NormalizeFieldKeys', 'RemoveEnclosingMiddleware',
            'ResolveStringReferencesMiddleware', 'SeparateCoAuthors', 'SortBlocksByTypeAndKeyMiddleware', 'SortFieldsAlphabeticallyMiddleware',
            'SortFieldsCustomMiddleware', 'SplitNameParts']
-MIN = {"write_string_monitor": (3000, 60000), "error_block_libraries": (300, 6000)}
+MIN = {"write_string_monitor": (3000, 60000), "error_block_libraries": (300, 6000), "whole_stack_monitor": (500, 20000)}
 MIN.update({"transform_copy:" + c: (100, 2000) for c in CLASSES})
 
 OPTS = {
@@ -202,8 +202,11 @@ def check(case, ctx):
             if w1 != w2:
                 out.append(Violation("write-unstable", "C07:write_string-twice-differs", dict(text=case["text"])))
     # ---- the stack, every step under the icontract snapshot/ensure pair
+    from ..monitors.fingerprint import mutable_ids
     cur = lib
     changing = False
+    lib_fp_before = fp(lib)
+    steps_done = 0
     for spec in case["stack"]:
         name = spec[0]
         state2 = step_type(state, name, spec[1])
@@ -229,6 +232,18 @@ def check(case, ctx):
                                  dict(error=srepr(ex), stack=case["stack"], text=case["text"], pre=case["pre"])))
             break
         changing = changing or name in VALUE_CHANGING
+        steps_done += 1
+    if not out and steps_done >= 2 and steps_done == len(case["stack"]):
+        # every element of the stack is in copy mode: the stack as a whole is a copy-mode program
+        ctx.mon("whole_stack_monitor")
+        if fp(lib) != lib_fp_before:
+            out.append(Violation("input-mutated", "C07:stack:input-mutated", dict(stack=case["stack"], text=case["text"], pre=case["pre"])))
+        else:
+            a, b = mutable_ids(lib), mutable_ids(cur)
+            shared = set(a) & set(b)
+            if shared:
+                kinds = "+".join(sorted({a[i] for i in shared}))[:40]
+                out.append(Violation("aliasing", f"C07:stack:aliasing:{kinds}", dict(stack=case["stack"], text=case["text"], pre=case["pre"], shared=kinds)))
     for k, v in contracts.COUNT.items():
         if k.startswith("transform_copy:"):
             d = v - c_before.get(k, 0)
